@@ -254,14 +254,21 @@ func newHistory(f []string) string {
 	cfg.Tables.ContentStore.Serve = b01(f[2])
 	cfg.Tables.ContentStore.Capacity = uint16(common.Atoi(f[3]))
 	cfg.Tables.DeadNonceList.Lifetime = common.Atoi(f[4])
-	cfg.Tables.Fib.Algorithm = f[5]
+	// "hashtable:<m>": the hash-table FIB with virtual depth m (the default 5 is deeper than every name
+	// of these histories, which would leave its virtual-node machinery idle)
+	alg := f[5]
+	if strings.HasPrefix(alg, "hashtable:") {
+		cfg.Tables.Fib.Hashtable.M = uint16(common.Atoi(alg[len("hashtable:"):]))
+		alg = "hashtable"
+	}
+	cfg.Tables.Fib.Algorithm = alg
 	core.LoadConfig(cfg, "/")
 	if !logInit {
 		core.InitializeLogger("/dev/null")
 		logInit = true
 	}
 	table.Configure()
-	table.CreateFIBTable(f[5])
+	table.CreateFIBTable(alg)
 	fw.Configure()
 	threads = nil
 	disp := []dispatch.FWThread{}
